@@ -173,6 +173,25 @@ func adapt2(site, variant string, o prim2) *primShape {
 	return s
 }
 
+// miniature replaces the object behind a shape by the same object built in a unit of 2^-20 (exact): queries are
+// scaled down on the way in and distances and points scaled back on the way out, so that everything else about the
+// shape (exact predicate, special points, creases) stays as it is.  A shape does not depend on the unit it is
+// written in.
+func miniature(s *primShape, twin *primShape) {
+	const k = 1.0 / (1 << 20)
+	dn := func(p pvec) pvec { return pvScale(p, k) }
+	up := func(p pvec) pvec { return pvScale(p, 1/k) }
+	s.variant += " unit=2^-20"
+	s.bounds = func() (pvec, pvec) { a, b := twin.bounds(); return up(a), up(b) }
+	s.contains = func(p pvec) bool { return twin.contains(dn(p)) }
+	s.sdf = func(p pvec) float64 { return twin.sdf(dn(p)) / k }
+	s.pointSDF = func(p pvec) (pvec, float64) { c, d := twin.pointSDF(dn(p)); return up(c), d / k }
+	s.normalSDF = func(p pvec) (pvec, float64) { n, d := twin.normalSDF(dn(p)); return n, d / k }
+	s.rays = func(o, d pvec, cb bool) (int, []primHit) { return twin.rays(dn(o), dn(d), cb) }
+	s.first = func(o, d pvec) (primHit, bool) { return twin.first(dn(o), dn(d)) }
+	s.ball = func(c pvec, r float64) bool { return twin.ball(dn(c), r*k) }
+}
+
 func solidOnly3(site, variant string, o model3d.Solid) *primShape {
 	s := &primShape{site: site, variant: variant, dim: 3, shape: "none"}
 	s.bounds = func() (pvec, pvec) { return c3v(o.Min()), c3v(o.Max()) }
@@ -476,6 +495,10 @@ func genCylinder(rng *rand.Rand) *primShape {
 	ax := pvScale(i3f(a), 1/pvNorm(i3f(a)))
 	s.circles = []primCircle{{i3f(p1), ax, float64(r)}, {i3f(p2), ax, float64(r)}}
 	axisSpecials(s, p14, a, 4*r, 3, []int{0, 1, 2, 0, 1, 2}, []int{1, 1, 1, 2, 2, 2})
+	if rng.Intn(3) == 0 {
+		const k = 1.0 / (1 << 20)
+		miniature(s, adapt3("", "", &model3d.Cylinder{P1: v3c(pvScale(i3f(p1), k)), P2: v3c(pvScale(i3f(p2), k)), Radius: float64(r) * k}))
+	}
 	return s
 }
 
@@ -493,6 +516,10 @@ func genCapsule3(rng *rand.Rand) *primShape {
 		if q, ok := alongQ(p14, a, -4*r, l); ok {
 			s.special = append(s.special, primSpecial{q, "surface"})
 		}
+	}
+	if rng.Intn(3) == 0 {
+		const k = 1.0 / (1 << 20)
+		miniature(s, adapt3("", "", &model3d.Capsule{P1: v3c(pvScale(i3f(p1), k)), P2: v3c(pvScale(i3f(p2), k)), Radius: float64(r) * k}))
 	}
 	return s
 }
@@ -526,6 +553,10 @@ func genCone(rng *rand.Rand) *primShape {
 	s.coneAxis, s.coneSlope = &ax, float64(r)/pvNorm(i3f(a))
 	axisSpecials(s, b4, a, 4*r, 3, []int{0, 0}, []int{1, 2})
 	s.special = append(s.special, primSpecial{i3scale(tip, 4), "apex"})
+	if rng.Intn(3) == 0 {
+		const k = 1.0 / (1 << 20)
+		miniature(s, adapt3("", "", &model3d.Cone{Tip: v3c(pvScale(i3f(tip), k)), Base: v3c(pvScale(i3f(base), k)), Radius: float64(r) * k}))
+	}
 	return s
 }
 
@@ -561,6 +592,10 @@ func genTorus(rng *rand.Rand) *primShape {
 				s.special = append(s.special, primSpecial{q, "surface"})
 			}
 		}
+	}
+	if rng.Intn(3) == 0 {
+		const k = 1.0 / (1 << 20)
+		miniature(s, adapt3("", "", &model3d.Torus{Center: v3c(pvScale(i3f(c), k)), Axis: v3c(i3f(a)), OuterRadius: float64(R) * k, InnerRadius: float64(r) * k}))
 	}
 	return s
 }
